@@ -154,6 +154,27 @@ func (c *Ctx) Mine(i int) bool {
 // set Exhaustive=false and return normally).
 func (c *Ctx) Expired() bool { return time.Now().After(c.Deadline) }
 
+// OverMemory reports whether this worker's resident set exceeds its budget (VERIF_MEM_MB,
+// default 1536): generated code is never unloaded, so a worker that compiles for every case
+// grows without bound; like the deadline, the budget ends the enumeration early
+// (Exhaustive=false), it never produces a verdict.
+func (c *Ctx) OverMemory() bool {
+	b, err := os.ReadFile("/proc/self/statm")
+	if err != nil {
+		return false
+	}
+	f := strings.Fields(string(b))
+	if len(f) < 2 {
+		return false
+	}
+	pages, _ := strconv.ParseInt(f[1], 10, 64)
+	limit := int64(1536)
+	if v, err := strconv.ParseInt(os.Getenv("VERIF_MEM_MB"), 10, 64); err == nil && v > 0 {
+		limit = v
+	}
+	return pages*int64(os.Getpagesize()) > limit<<20
+}
+
 // SetCase records the case about to run so that a crash can be attributed to it.
 func (c *Ctx) SetCase(desc string) {
 	if c.cur == nil {
